@@ -165,7 +165,13 @@ def _kp_count_errors(case):
     """COUNT over cells that hold an error value returns the count of the
     numeric cells instead of the first error (the property lists COUNT among
     the aggregates that return the first error present)."""
-    return case.get('oracle') == 'first-error' and case.get('call') in ('count', 'COUNT', 'SUBTOTAL-count')
+    return case.get('oracle') == 'first-error' and case.get('call') in ('count', 'COUNT', 'SUBTOTAL-count') \
+        and case.get('returned_numeric_count') is True
+
+
+def returned_numeric_count(im, cells):
+    """the implementation answered exactly the number of numeric cells (what the known finding is about)"""
+    return value_of(im) == ('num', F(len([x for x in cells if is_num(x)])))
 
 
 @known_predicate('C14-sumproduct-int64-wrap')
@@ -238,7 +244,7 @@ def run(ctx):
         if not meets(name, im, want):
             errs = [x for x in cells if is_err(x)]
             if errs:
-                ctx.violation(dict(case, oracle='first-error'),
+                ctx.violation(dict(case, oracle='first-error', returned_numeric_count=returned_numeric_count(im, cells)),
                               f"{EXCEL_NAME[name]} does not return the first error value present",
                               impl=im, expected=want)
             else:
@@ -548,7 +554,8 @@ def workbook_phase(ctx, impl, tie, shapes):
                 if not meets(name, im, want):
                     errs = [x for x in flat(args) if is_err(x)]
                     call = ('SUBTOTAL-' + name) if what == 'subtotal' else EXCEL_NAME[name]
-                    ctx.violation(dict(case, call=call, oracle='first-error' if errs else 'numeric-only'),
+                    ctx.violation(dict(case, call=call, oracle='first-error' if errs else 'numeric-only',
+                                       returned_numeric_count=returned_numeric_count(im, flat(args))),
                                   f"{fml} is not the aggregate the property states", impl=im, expected=want)
                 if what == 'subtotal':
                     other = ev((name, 1 if n < 100 else 2))
